@@ -668,8 +668,12 @@ class _RenderEnv:
 
     docname = "index"
     srcdir = ""
-    temp_data = {}
-    metadata = {}
+
+    def __init__(self):
+        import collections
+
+        self.temp_data = {}
+        self.metadata = collections.defaultdict(dict)  # (as in Sphinx)
 
     class config:
         suppress_warnings = []
